@@ -68,11 +68,17 @@ defvjp(inv, grad_inv)
 
 def grad_pinv(ans, x):
     # https://mathoverflow.net/questions/25778/analytical-formula-for-numerical-derivative-of-the-matrix-pseudo-inverse
-    return lambda g: T(
-        -_dot(_dot(ans, T(g)), ans)
-        + _dot(_dot(_dot(ans, T(ans)), g), anp.eye(x.shape[-2]) - _dot(x, ans))
-        + _dot(_dot(_dot(anp.eye(ans.shape[-2]) - _dot(ans, x), g), T(ans)), ans)
-    )
+    # the two projector terms depend on conj(dx): they use the conjugate transpose and enter conjugated
+    def vjp(g):
+        ansH = anp.conj(T(ans))
+        gt = T(g)
+        return (
+            -T(_dot(_dot(ans, gt), ans))
+            + anp.conj(_dot(_dot(_dot(anp.eye(x.shape[-2]) - _dot(x, ans), gt), ans), ansH))
+            + anp.conj(_dot(_dot(_dot(ansH, ans), gt), anp.eye(ans.shape[-2]) - _dot(ans, x)))
+        )
+
+    return vjp
 
 
 defvjp(pinv, grad_pinv)
